@@ -6,6 +6,7 @@ CONSTANTS
   ExportOn = TRUE
   SampleMod = 60
   TimeoutOdds = 1
+  MByz = {}
   Ks = {0, 1}
 INIT MInit
 NEXT MNext
